@@ -124,10 +124,17 @@ def checksalt_paths(chk, m, codes, tag=""):
 def run(chk, tier):
     chk.explanation = __doc__
     m, info = common.prog("shared")
+    check_module(chk, m, info)
+    chk.assumptions += ["check_badsalt_chars and get_hashfn are the same functions do_crypt uses (checked), their own semantics are covered by C05/C06 rules",
+                        "pinned hash selection; other selections are evaluated under C19"]
+
+
+def check_module(chk, m, info, tag=""):
     codes = status_codes(info["incdir"])
     chk.rule("R-CHECKSALT-PATHS", "returned constant on every acyclic path of crypt_checksalt equals the specification")
-    f, npaths = checksalt_paths(chk, m, codes)
-    chk.floor("R-CHECKSALT-PATHS", 4, "paths of crypt_checksalt")
+    f, npaths = checksalt_paths(chk, m, codes, tag)
+    if npaths < 3:
+        raise AnalysisBroken("crypt_checksalt has only %d paths" % npaths)
     # R-CHECKSALT-READS
     chk.rule("R-CHECKSALT-READS", "crypt_checksalt touches `setting` only via NULL test, first byte, check_badsalt_chars, get_hashfn")
     pid = 0
@@ -163,7 +170,7 @@ def run(chk, tier):
     tbl = m.hash_table()
     rows = [r for r in tbl["rows"] if r["prefix"] is not None]
     conf = read_hashes_conf()
-    enabled = set(x for x in info["params"]["hashes_enabled"].strip(",").split(",") if x)
+    enabled = set(info["enabled"])
     byfn = {}
     for c in conf:
         byfn["_crypt_crypt_%s_rn" % c["name"]] = c
@@ -283,8 +290,8 @@ def run(chk, tier):
             chk.fail("R-PREFERRED", "prefix-reuse", "crypt_gensalt_rn looks at the prefix again after the lookup (%s)" % later[0].op, common.loc(later[0]))
         else:
             chk.ok("R-PREFERRED", "prefix-reuse")
-    chk.note("paths_crypt_checksalt", npaths)
-    chk.note("table_rows", len(rows))
-    chk.note("status_codes", codes)
-    chk.assumptions += ["check_badsalt_chars and get_hashfn are the same functions do_crypt uses (checked), their own semantics are covered by C05/C06 rules",
-                        "pinned hash selection; other selections are evaluated under C19"]
+    if not tag:
+        chk.note("paths_crypt_checksalt", npaths)
+        chk.note("table_rows", len(rows))
+        chk.note("status_codes", codes)
+    return rows, want
